@@ -213,13 +213,14 @@ Proof.
   rewrite delivered_app, kernel_app, Hk, Hd2, !app_nil_r. split; [assumption|]. congruence.
 Qed.
 
-Lemma io_poll_exact E s raw :
-  let '(s', evs) := io_poll E s raw in
+Lemma io_poll_exact E s raw wout :
+  let '(s', evs) := io_poll E s raw wout in
   delivered evs = kernel evs /\ chain (pos s) (kernel evs) (pos s').
 Proof.
   unfold io_poll.
   destruct (raw =? 0); [split; reflexivity|].
-  destruct (negb (pollin s)); [split; reflexivity|].
+  match goal with |- context [if ?pv =? 0 then (s, []) else _] =>
+    destruct (pv =? 0); [split; reflexivity|] end.
   match goal with |- context [if ?c =? 0 then _ else stream_io E s ?p] =>
     destruct (c =? 0); [split; reflexivity|apply (stream_io_exact E s p)] end.
 Qed.
@@ -234,14 +235,17 @@ Proof.
     destruct (cop_run s c) as [s' evs]; cbn in *.
     apply rets_delivered in Hq. destruct Hq as [-> ->]. destruct Hf as [Hp _].
     split; [reflexivity|]. cbn. congruence. }
-  destruct o as [tok| | |raw]; cbn [op_run]; try apply Hcop.
-  unfold run_once. pose proof (io_poll_exact E s raw) as H.
-  destruct (io_poll E s raw) as [s1 e1]. destruct H as [Hd Hch].
-  destruct (closing s1 && negb (closed s1)).
-  - change (delivered (EPoll raw :: e1 ++ [ECloseCb])) with (delivered (e1 ++ [ECloseCb])).
-    change (kernel (EPoll raw :: e1 ++ [ECloseCb])) with (kernel (e1 ++ [ECloseCb])).
-    rewrite delivered_app, kernel_app. cbn. rewrite !app_nil_r. split; assumption.
-  - split; assumption.
+  destruct o as [tok| | |raw wout|ev]; cbn [op_run]; try apply Hcop.
+  - unfold run_once. pose proof (io_poll_exact E s raw wout) as H.
+    destruct (io_poll E s raw wout) as [s1 e1]. destruct H as [Hd Hch].
+    destruct (closing s1 && negb (closed s1)).
+    + change (delivered (EPoll raw :: e1 ++ [ECloseCb])) with (delivered (e1 ++ [ECloseCb])).
+      change (kernel (EPoll raw :: e1 ++ [ECloseCb])) with (kernel (e1 ++ [ECloseCb])).
+      rewrite delivered_app, kernel_app. cbn. rewrite !app_nil_r. split; assumption.
+    + split; assumption.
+  - unfold io_event. destruct (closing s); [split; reflexivity|].
+    pose proof (stream_io_exact E s ev) as H.
+    destruct (stream_io E s ev) as [s1 e1]. exact H.
 Qed.
 
 Lemma exec_exact E s os :
@@ -599,13 +603,14 @@ Proof.
   exists m2. split; [|assumption]. rewrite (runA_app _ _ _ _ Hr1). assumption.
 Qed.
 
-Lemma io_poll_A E s m raw :
+Lemma io_poll_A E s m raw wout :
   RelA true s m ->
-  exists m', runA m (snd (io_poll E s raw)) = Some m' /\ RelA true (fst (io_poll E s raw)) m'.
+  exists m', runA m (snd (io_poll E s raw wout)) = Some m' /\ RelA true (fst (io_poll E s raw wout)) m'.
 Proof.
   intros H. unfold io_poll.
   destruct (raw =? 0); [exists m; split; [reflexivity|assumption]|].
-  destruct (negb (pollin s)); [exists m; split; [reflexivity|assumption]|].
+  match goal with |- context [if ?pv =? 0 then (s, []) else _] =>
+    destruct (pv =? 0); [exists m; split; [reflexivity|assumption]|] end.
   match goal with |- context [if ?c =? 0 then _ else stream_io E s ?p] =>
     destruct (c =? 0); [exists m; split; [reflexivity|assumption]|apply stream_io_A; assumption] end.
 Qed.
@@ -614,16 +619,20 @@ Lemma op_run_A E s m o :
   RelA true s m ->
   exists m', runA m (snd (op_run E s o)) = Some m' /\ RelA true (fst (op_run E s o)) m'.
 Proof.
-  intros H. destruct o as [tok| | |raw]; cbn [op_run]; try (apply cop_run_A; assumption).
-  unfold run_once.
-  destruct (io_poll_A E s m raw H) as (m1 & Hr1 & H1).
-  destruct (io_poll E s raw) as [s1 e1]; cbn in *.
-  destruct (closing s1 && negb (closed s1)) eqn:Hc; cbn.
-  - exists m1. split.
-    + rewrite (runA_app _ _ _ _ Hr1). reflexivity.
-    + apply andb_true_iff in Hc. destruct Hc as [Hc _].
-      clear H. inv_tac. fin.
-  - exists m1. split; assumption.
+  intros H. destruct o as [tok| | |raw wout|ev]; cbn [op_run]; try (apply cop_run_A; assumption).
+  - unfold run_once.
+    destruct (io_poll_A E s m raw wout H) as (m1 & Hr1 & H1).
+    destruct (io_poll E s raw wout) as [s1 e1]; cbn in *.
+    destruct (closing s1 && negb (closed s1)) eqn:Hc; cbn.
+    + exists m1. split.
+      * rewrite (runA_app _ _ _ _ Hr1). reflexivity.
+      * apply andb_true_iff in Hc. destruct Hc as [Hc _].
+        clear H. inv_tac. fin.
+    + exists m1. split; assumption.
+  - unfold io_event. destruct (closing s); [exists m; split; [reflexivity|assumption]|].
+    destruct (stream_io_A E s m ev H) as (m1 & Hr1 & H1).
+    destruct (stream_io E s ev) as [s1 e1]; cbn in *.
+    exists m1. split; assumption.
 Qed.
 
 Lemma exec_A E s m os :
@@ -1014,10 +1023,12 @@ Proof.
   unfold stepB_ok. rewrite Hor2, Hq2. auto.
 Qed.
 
-Lemma has_hup_filter raw : has (Z.land raw (Z.lor POLLIN (Z.lor POLLERR POLLHUP))) POLLHUP = has raw POLLHUP.
+Lemma has_hup_filter raw pev :
+  Z.land pev 16 = 0 ->
+  has (Z.land raw (Z.lor pev (Z.lor POLLERR POLLHUP))) POLLHUP = has raw POLLHUP.
 Proof.
-  unfold has. change (Z.lor POLLIN (Z.lor POLLERR POLLHUP)) with 25. change POLLHUP with 16.
-  rewrite <- Z.land_assoc. reflexivity.
+  intros Hp. unfold has. change (Z.lor POLLERR POLLHUP) with 24. change POLLHUP with 16.
+  rewrite <- Z.land_assoc, Z.land_lor_distr_l, Hp. reflexivity.
 Qed.
 
 Lemma has_hup_merge x k : Z.land k 16 = 0 -> has (Z.lor x k) POLLHUP = has x POLLHUP.
@@ -1026,24 +1037,31 @@ Proof.
   rewrite Z.land_lor_distr_l, Hk, Z.lor_0_r. reflexivity.
 Qed.
 
-Lemma io_poll_B strict E s m raw :
+Lemma io_poll_B strict E s m raw wout :
   strict = true \/ is_pipe s = true ->
   Forall errno_ok (oracle s) -> k_hup m = has raw POLLHUP ->
-  let '(s', evs) := io_poll E s raw in
+  let '(s', evs) := io_poll E s raw wout in
   eof_ok strict m evs /\ stepB_ok s s' m (runB strict m evs).
 Proof.
   intros Hsp Ho Hh. unfold io_poll.
   assert (Hnop : eof_ok strict m [] /\ stepB_ok s s m (runB strict m []))
     by (cbn; unfold stepB_ok; auto).
   destruct (raw =? 0); [exact Hnop|].
-  destruct (negb (pollin s)); [exact Hnop|].
+  set (pev := if closing s then 0
+              else Z.lor (if pollin s then POLLIN else 0) (if wout then POLLOUT else 0)).
+  assert (Hpev : Z.land pev 16 = 0).
+  { unfold pev. destruct (closing s), (pollin s), wout; reflexivity. }
+  destruct (pev =? 0); [exact Hnop|].
   match goal with |- context [if ?c =? 0 then _ else stream_io E s ?p] =>
     destruct (c =? 0); [exact Hnop|]; apply (stream_io_B strict E s m p Hsp Ho) end.
   rewrite Hh.
-  destruct ((Z.land raw (Z.lor POLLIN (Z.lor POLLERR POLLHUP)) =? POLLERR)
-            || (Z.land raw (Z.lor POLLIN (Z.lor POLLERR POLLHUP)) =? POLLHUP)).
-  - rewrite has_hup_merge by reflexivity. symmetry. apply has_hup_filter.
-  - symmetry. apply has_hup_filter.
+  destruct ((Z.land raw (Z.lor pev (Z.lor POLLERR POLLHUP)) =? POLLERR)
+            || (Z.land raw (Z.lor pev (Z.lor POLLERR POLLHUP)) =? POLLHUP)).
+  - rewrite has_hup_merge.
+    + symmetry. apply has_hup_filter. exact Hpev.
+    + rewrite <- Z.land_assoc. change (Z.land (Z.lor POLLIN (Z.lor POLLOUT (Z.lor POLLRDHUP POLLPRI))) 16) with 0.
+      apply Z.land_0_r.
+  - symmetry. apply has_hup_filter. exact Hpev.
 Qed.
 
 Lemma kstep_fin_mono strict m e : k_fin m = true -> k_fin (kstep strict m e) = true.
@@ -1065,14 +1083,18 @@ Proof.
     destruct (cop_run s c) as [s' evs]; cbn in *.
     destruct (rets_B strict m evs Hq) as [_ He]. destruct Hf as (_ & Hor & _ & _ & _ & _ & Hpp).
     split; [assumption|]. rewrite Hor. split; assumption. }
-  destruct o as [tok| | |raw]; cbn [op_run]; try apply Hcop.
-  unfold run_once.
-  pose proof (io_poll_B strict E s (mkB (has raw POLLHUP) (k_fin m)) raw Hsp Ho eq_refl) as H.
-  destruct (io_poll E s raw) as [s1 e1]. destruct H as (He & _ & _ & Ho1 & Hq1).
-  destruct (closing s1 && negb (closed s1)); cbn [eof_ok kstep oracle set_closed is_pipe].
-  - split; [|split; assumption]. split; [exact I|].
-    apply eof_ok_app; [assumption|]. cbn. auto.
-  - split; [|split; assumption]. split; [exact I|assumption].
+  destruct o as [tok| | |raw wout|ev]; cbn [op_run]; try apply Hcop.
+  - unfold run_once.
+    pose proof (io_poll_B strict E s (mkB (has raw POLLHUP) (k_fin m)) raw wout Hsp Ho eq_refl) as H.
+    destruct (io_poll E s raw wout) as [s1 e1]. destruct H as (He & _ & _ & Ho1 & Hq1).
+    destruct (closing s1 && negb (closed s1)); cbn [eof_ok kstep oracle set_closed is_pipe].
+    + split; [|split; assumption]. split; [exact I|].
+      apply eof_ok_app; [assumption|]. cbn. auto.
+    + split; [|split; assumption]. split; [exact I|assumption].
+  - unfold io_event. destruct (closing s); [cbn; auto|].
+    pose proof (stream_io_B strict E s (mkB (has ev POLLHUP) (k_fin m)) ev Hsp Ho eq_refl) as H.
+    destruct (stream_io E s ev) as [s1 e1]. destruct H as (He & _ & _ & Ho1 & Hq1).
+    cbn [eof_ok kstep]. split; [|split; assumption]. split; [exact I|assumption].
 Qed.
 
 Lemma exec_B strict E os : forall s m,
@@ -1154,7 +1176,7 @@ Qed.
    that carried the descriptor (1 byte), epoll reports POLLIN|POLLHUP. *)
 Definition wit_env : env := mkEnv (fun _ => mkBuf true 65536) (fun _ => []).
 Definition wit_oracle : list ans := [Data 1; Data 4; Eof].
-Definition wit_ops : list op := [OStart 1; ORun 17; OStart 2; ORun 17].
+Definition wit_ops : list op := [OStart 1; ORun 17 false; OStart 2; ORun 17 false].
 
 Lemma shortcut_premature_eof :
   let tr := snd (exec wit_env (init false false wit_oracle) wit_ops) in
@@ -1171,7 +1193,7 @@ Qed.
    the short-cut EOF: 5 bytes, closed peer, one 64-byte buffer *)
 Lemma eof_hypotheses_satisfiable :
   let tr := snd (exec (mkEnv (fun _ => mkBuf true 64) (fun _ => [])) (init false false [Data 5])
-                      [OStart 1; ORun 17; ORun 17]) in
+                      [OStart 1; ORun 17 false; ORun 17 false]) in
   kernel_ok true monB0 tr /\ In (ERead 1 UV_EOF None 0 0) tr /\ delivered tr = [(0, 5)].
 Proof.
   split; [vm_compute; repeat split|].
@@ -1274,38 +1296,39 @@ Proof.
   rewrite nallocs_app. lia.
 Qed.
 
-Theorem budget E s raw : (nallocs (snd (run_once E s raw)) <= 32)%nat.
+Lemma stream_io_budget E s ev : (nallocs (snd (stream_io E s ev)) <= 32)%nat.
 Proof.
-  unfold run_once.
-  assert (H : (nallocs (snd (io_poll E s raw)) <= 32)%nat).
-  { unfold io_poll.
-    destruct (raw =? 0); [cbn; lia|]. destruct (negb (pollin s)); [cbn; lia|].
-    match goal with |- context [if ?c =? 0 then _ else stream_io E s ?p] =>
-      destruct (c =? 0); [cbn; lia|]; generalize p; intros ev end.
-    unfold stream_io.
-    assert (H1 : (nallocs (snd (if has ev (Z.lor POLLIN (Z.lor POLLERR POLLHUP)) then uv_read E s else (s, []))) <= 32)%nat).
-    { destruct (has ev _); [|cbn; lia]. unfold uv_read. apply read_loop_budget. }
-    destruct (if has ev (Z.lor POLLIN (Z.lor POLLERR POLLHUP)) then uv_read E s else (s, [])) as [s1 e1].
-    cbn [snd] in H1.
-    destruct (closing s1); [exact H1|].
-    destruct (has ev POLLHUP && reading s1 && partial s1 && negb (eof s1)); [|exact H1].
-    pose proof (stream_eof_no_alloc E s1 None) as H2.
-    destruct (stream_eof E s1 None) as [s2 e2]; cbn [snd] in *.
-    rewrite nallocs_app. lia. }
-  destruct (io_poll E s raw) as [s1 e1]; cbn [snd] in H.
-  destruct (closing s1 && negb (closed s1)); cbn [snd].
-  - change (EPoll raw :: e1 ++ [ECloseCb]) with ([EPoll raw] ++ e1 ++ [ECloseCb]).
-    rewrite !nallocs_app. cbn. lia.
-  - change (EPoll raw :: e1) with ([EPoll raw] ++ e1). rewrite nallocs_app. cbn. lia.
+  unfold stream_io.
+  assert (H1 : (nallocs (snd (if has ev (Z.lor POLLIN (Z.lor POLLERR POLLHUP)) then uv_read E s else (s, []))) <= 32)%nat).
+  { destruct (has ev _); [|cbn; lia]. unfold uv_read. apply read_loop_budget. }
+  destruct (if has ev (Z.lor POLLIN (Z.lor POLLERR POLLHUP)) then uv_read E s else (s, [])) as [s1 e1].
+  cbn [snd] in H1.
+  destruct (closing s1); [exact H1|].
+  destruct (has ev POLLHUP && reading s1 && partial s1 && negb (eof s1)); [|exact H1].
+  pose proof (stream_eof_no_alloc E s1 None) as H2.
+  destruct (stream_eof E s1 None) as [s2 e2]; cbn [snd] in *.
+  rewrite nallocs_app. lia.
 Qed.
 
-(* item 20 on the repaired code: the same kernel answers on an IPC pipe now give
-   "A", "BBBB", then one UV_EOF carrying the buffer of the read that returned 0 *)
-Lemma item20_repaired :
-  let tr := snd (exec wit_env (init true true wit_oracle) [OStart 1; ORun 17; ORun 17; ORun 17; ORun 17]) in
-  kernel_ok false monB0 tr /\
-  delivered tr = [(0, 1); (1, 4)] /\
-  filter (fun e => match e with ERead _ n _ _ _ => n =? UV_EOF | _ => false end) tr =
-    [ERead 1 UV_EOF (Some 2%nat) 0 0] /\
-  eof_data_b tr = true.
-Proof. vm_compute. repeat split. Qed.
+Theorem budget E s o : (nallocs (snd (op_run E s o)) <= 32)%nat.
+Proof.
+  assert (Hcop : forall c, (nallocs (snd (cop_run s c)) <= 32)%nat).
+  { intros c. rewrite (rets_no_alloc _ (cop_run_rets s c)). lia. }
+  destruct o as [tok| | |raw wout|ev]; cbn [op_run]; try apply Hcop.
+  - unfold run_once.
+    assert (H : (nallocs (snd (io_poll E s raw wout)) <= 32)%nat).
+    { unfold io_poll.
+      destruct (raw =? 0); [cbn; lia|].
+      match goal with |- context [if ?pv =? 0 then (s, []) else _] => destruct (pv =? 0); [cbn; lia|] end.
+      match goal with |- context [if ?c =? 0 then _ else stream_io E s ?p] =>
+        destruct (c =? 0); [cbn; lia|apply stream_io_budget] end. }
+    destruct (io_poll E s raw wout) as [s1 e1]; cbn [snd] in H.
+    destruct (closing s1 && negb (closed s1)); cbn [snd].
+    + change (EPoll raw :: e1 ++ [ECloseCb]) with ([EPoll raw] ++ e1 ++ [ECloseCb]).
+      rewrite !nallocs_app. cbn. lia.
+    + change (EPoll raw :: e1) with ([EPoll raw] ++ e1). rewrite nallocs_app. cbn. lia.
+  - unfold io_event. destruct (closing s); [cbn; lia|].
+    pose proof (stream_io_budget E s ev) as H.
+    destruct (stream_io E s ev) as [s1 e1]; cbn [snd] in *.
+    change (EPoll ev :: e1) with ([EPoll ev] ++ e1). rewrite nallocs_app. cbn. lia.
+Qed.
